@@ -8,8 +8,16 @@ open Lean
 namespace Mashu
 open Mashu.Wire
 
+def getLeaves (j : Json) (k : String) : List Leaf :=
+  match j.getObjVal? k with
+  | .ok (.arr a) => a.toList.filterMap (fun x => match x with
+      | .str s => leafNames.lookup s
+      | _ => none)
+  | _ => []
+
 def getCx (j : Json) : Cx :=
-  { nailed := getB j "nailed" true, ntAsDict := getB j "nt_as_dict" false }
+  { passLeaves := getLeaves j "pass_leaves", noCopyList := getB j "no_copy_list" false, noCopyDict := getB j "no_copy_dict" false, nailed := getB j "nailed" true, ntAsDict := getB j "nt_as_dict" false,
+    fixK1 := getB j "fixK1" false, fixK2 := getB j "fixK2" false, fixK10 := getB j "fixK10" false }
 
 def dispatchCore (op : String) (j : Json) : Except String Json := do
   let O := (← toOracleTable (j.getObjValD "oracle")).toOracle
@@ -23,6 +31,9 @@ def dispatchCore (op : String) (j : Json) : Except String Json := do
   | "unpack" => do
       let v ← toV (j.getObjValD "value")
       pure (ofR (unpack O cx fx ty v))
+  | "conf" => do
+      let v ← toV (j.getObjValD "value")
+      pure (Json.mkObj [("conf", Json.bool (conf ty v))])
   | "roundtrip" => do
       let v ← toV (j.getObjValD "value")
       match pack O cx fx ty v with
@@ -33,7 +44,7 @@ def dispatchCore (op : String) (j : Json) : Except String Json := do
 def dispatch (j : Json) : Except String Json := do
   let op ← str (j.getObjValD "op")
   match op with
-  | "pack" | "unpack" | "roundtrip" => dispatchCore op j
+  | "pack" | "unpack" | "roundtrip" | "conf" => dispatchCore op j
   | _ => throw s!"unknown op {op}"
 
 end Mashu
